@@ -147,7 +147,21 @@ func cmdLinear(args []string) error {
 		}
 		c.D1 = c.A1 + r.Int63n(int64(2*time.Hour)) - int64(time.Hour)
 		var num_, den int64
-		if r.Intn(3) == 0 {
+		if i%5 == 4 {
+			// a slow drift: a slope within a few parts per million of 1 (a clock that gains milliseconds per hour), far
+			// reference points
+			den = 1000000000
+			num_ = den + r.Int63n(4001) - 2000
+			if num_ == den {
+				num_ = den + 830
+			}
+			if c.A2-c.A1 < int64(time.Hour) && c.A1-c.A2 < int64(time.Hour) {
+				c.A2 = (c.A1 + int64(3*time.Hour)) % (day + 1)
+				if c.A2 == c.A1 {
+					c.A2 = c.A1 + int64(time.Hour)
+				}
+			}
+		} else if r.Intn(3) == 0 {
 			den = 1000000
 			num_ = 500000 + r.Int63n(1500001) // slope in [0.5, 2]
 		} else {
